@@ -547,6 +547,8 @@ def mutate(draw, st, s, accel):
             s["dest"][1] = rng16(draw, st)
         else:
             n = 16 * draw(st.integers(1, 4096)) if s["dest"][0] != csdec.SHRAM_REGION else draw(st.sampled_from([256, 512, 1024, 2048]))
+            if s["dest"][0] == csdec.SHRAM_REGION:  # keep the transfer inside SHRAM (a longer one is an illegal request, rightly refused)
+                s["dest"][1] = min(s["dest"][1], hw.ACCELS[accel]["banks"] * 1024 - n)
             s["src"][2] = s["dest"][2] = n
         return s
     for _ in range(draw(st.integers(1, 3))):
